@@ -178,4 +178,6 @@ func runC01(e *Engine, r *Report) {
 	ruleAppliedArg(e, r)
 	ruleHintVoting(e, r)
 	ruleReadRelease(e, r)
+	ruleConfirmPrefix(e, r)
+	ruleReadBatchCopy(e, r)
 }
